@@ -524,6 +524,198 @@ func c19ThrottleBody(r *Run) {
 	}
 }
 
+
+// c19ConcurrentBody: ONE instance of a middleware stack serves several messages at the same time (as a router-level
+// middleware does for all handlers and all messages in flight); every message must get exactly what the reference
+// gives it on its own. Throttle and CircuitBreaker, which share state between messages by design, stay out.
+func c19ConcurrentBody(r *Run) {
+	t := r.T
+	allowed := []int{mwTimeout, mwCorrelation, mwRecoverer, mwIgnoreErrors, mwInstantAck, mwDelayOnError, mwRetry}
+	depth := 1 + t.Int(3)
+	var kinds []int
+	var names []string
+	for i := 0; i < depth; i++ {
+		k := allowed[t.Int(len(allowed))]
+		kinds = append(kinds, k)
+		names = append(names, mwKindNames[k])
+	}
+	maxRetries := 1 + t.Int(3)
+	timeout := time.Duration(50+t.Int(500)) * time.Millisecond
+	dcfg := c19DelayCfg{initial: time.Duration(1+t.Int(1000)) * time.Millisecond, mult: 1 + float64(t.Int(31))/10}
+	dcfg.max = dcfg.initial * time.Duration(1+t.Int(20))
+	nMsgs := 2 + t.Int(3)
+	presentations := 1 + t.Int(3)
+	type mstate struct {
+		uuid     string
+		corr     string
+		real     *c19Bare
+		ref      *c19Bare
+		refH     message.HandlerFunc
+		refDelay int
+		exhaust  bool
+		msg      *message.Message
+		refMsg   *message.Message
+		results  []func() // deferred comparisons, run at the end in the root goroutine
+	}
+	states := map[string]*mstate{}
+	var list []*mstate
+	for i := 0; i < nMsgs; i++ {
+		var script []c19Step
+		for k := 0; k < 12; k++ {
+			st := c19Step{outs: t.Int(3)}
+			for j := 0; j < st.outs; j++ {
+				st.preset = append(st.preset, t.Chance(1, 3))
+			}
+			switch t.Int(6) {
+			case 0, 1:
+				st.errK = 1 + t.Int(3)
+			case 2:
+				st.panicK = 1 + t.Int(3)
+			}
+			script = append(script, st)
+		}
+		ms := &mstate{uuid: fmt.Sprintf("msg-%d", i), real: &c19Bare{script: script, r: r, real: true}, ref: &c19Bare{script: script, r: r}}
+		if t.Chance(2, 3) {
+			ms.corr = fmt.Sprintf("corr-%d", i)
+		}
+		states[ms.uuid] = ms
+		list = append(list, ms)
+	}
+	r.Describe("ONE stack instance (outermost first) %s serves %d messages concurrently, %d presentations each", strings.Join(names, " > "), nMsgs, presentations)
+	// the shared real stack: the bare handler finds its message's own script
+	realH := message.HandlerFunc(func(m *message.Message) ([]*message.Message, error) {
+		time.Sleep(time.Millisecond) // the calls overlap
+		return states[m.UUID].real.handle(m)
+	})
+	hasTimeout, hasInstantAck := false, false
+	for i := len(kinds) - 1; i >= 0; i-- {
+		switch kinds[i] {
+		case mwTimeout:
+			realH = middleware.Timeout(timeout)(realH)
+			hasTimeout = true
+		case mwCorrelation:
+			realH = middleware.CorrelationID(realH)
+		case mwRecoverer:
+			realH = middleware.Recoverer(realH)
+		case mwIgnoreErrors:
+			realH = middleware.NewIgnoreErrors([]error{errC19Ignored}).Middleware(realH)
+		case mwInstantAck:
+			realH = middleware.InstantAck(realH)
+			hasInstantAck = true
+		case mwDelayOnError:
+			d := &middleware.DelayOnError{InitialInterval: dcfg.initial, MaxInterval: dcfg.max, Multiplier: dcfg.mult}
+			realH = d.Middleware(realH)
+		case mwRetry:
+			realH = middleware.Retry{MaxRetries: maxRetries, InitialInterval: time.Millisecond, MaxInterval: 2 * time.Millisecond, Multiplier: 1.5}.Middleware(realH)
+		}
+	}
+	for _, ms := range list {
+		ms := ms
+		ms.refH = ms.ref.handle
+		for i := len(kinds) - 1; i >= 0; i-- {
+			ms.refH = c19Ref(kinds[i], ms.refH, dcfg, maxRetries, &ms.refDelay, &ms.exhaust)
+		}
+		ms.msg = message.NewMessage(ms.uuid, []byte("p"))
+		ms.refMsg = message.NewMessage(ms.uuid, []byte("p"))
+		if ms.corr != "" {
+			ms.msg.Metadata.Set(middleware.CorrelationIDMetadataKey, ms.corr)
+			ms.refMsg.Metadata.Set(middleware.CorrelationIDMetadataKey, ms.corr)
+		}
+	}
+	var wg sync.WaitGroup
+	overlapped := false
+	inFlight := 0
+	for _, ms := range list {
+		ms := ms
+		wg.Add(1)
+		go func() {
+			defer wg.Done()
+			for p := 0; p < presentations; p++ {
+				p := p
+				obsFrom := len(ms.real.obs)
+				var rOuts []*message.Message
+				var rErr error
+				inFlight++
+				if inFlight > 1 {
+					overlapped = true
+				}
+				rpv, rpan := Call(func() { rOuts, rErr = realH(ms.msg) })
+				inFlight--
+				ctxErrAfter := ms.msg.Context().Err()
+				_, deadlineAfter := ms.msg.Context().Deadline()
+				obs := append([]c19Obs(nil), ms.real.obs[obsFrom:]...)
+				realCalls := ms.real.calls
+				ms.results = append(ms.results, func() {
+					what := fmt.Sprintf("message %s, presentation %d, through ONE stack %s shared by %d concurrent messages", ms.uuid, p+1, strings.Join(names, " > "), nMsgs)
+					var fOuts []*message.Message
+					var fErr error
+					ms.exhaust = false
+					fpv, fpan := Call(func() { fOuts, fErr = ms.refH(ms.refMsg) })
+					if rpan != fpan {
+						r.Fail("C19.R1", "with several messages in one stack a panic escaped (or was swallowed) unlike for a message on its own", "%s: real panic=%v (%v), reference panic=%v (%v)", what, rpan, rpv, fpan, fpv)
+						return
+					}
+					if rpan {
+						if fmt.Sprint(rpv) != fmt.Sprint(fpv) {
+							r.Fail("C19.R1", "with several messages in one stack the escaping panic value was changed", "%s: %v vs %v", what, rpv, fpv)
+						}
+						return
+					}
+					if !c19SameErr(rErr, fErr) {
+						r.Fail("C19.R2", "with several messages in one stack a message got another error than on its own", "%s: got %q, reference %q", what, c19Classify(rErr), c19Classify(fErr))
+					}
+					if !ms.exhaust && c19Outs(rOuts) != c19Outs(fOuts) {
+						r.Fail("C19.R2", "with several messages in one stack a message got other outputs than on its own", "%s: got [%s], reference [%s]", what, c19Outs(rOuts), c19Outs(fOuts))
+					}
+					if realCalls != ms.ref.calls {
+						r.Fail("C19.R3", "with several messages in one stack a message's handler was invoked a different number of times than on its own", "%s: %d invocations, reference %d", what, realCalls, ms.ref.calls)
+					}
+					for _, o := range obs {
+						if hasTimeout && (!o.deadlineSet || o.remaining > timeout || o.remaining <= 0) {
+							r.Fail("C19.R4", "Timeout: no (or a wrong) deadline visible during the call", "%s: deadlineSet=%v remaining=%v timeout=%v", what, o.deadlineSet, o.remaining, timeout)
+						}
+						if o.ctxErr != nil {
+							r.Fail("C19.R5", "the handler was invoked with an already cancelled message context", "%s: %v", what, o.ctxErr)
+						}
+						if hasInstantAck && !o.ackedAtEntry {
+							r.Fail("C19.R4", "InstantAck: message not acked before the handler ran", "%s", what)
+						}
+					}
+					if ctxErrAfter != nil {
+						r.Fail("C19.R5", "the message context is left cancelled after the call", "%s: %v", what, ctxErrAfter)
+					}
+					if deadlineAfter {
+						r.Fail("C19.R5", "the message context still carries the Timeout's deadline after the call", "%s", what)
+					}
+				})
+			}
+		}()
+	}
+	wg.Wait()
+	if overlapped {
+		r.Probe("messages-overlapped-in-one-stack")
+	}
+	for _, ms := range list {
+		for _, f := range ms.results {
+			f()
+		}
+		// the delay stamped on a message counts that message's own consecutive failures
+		got := ms.msg.Metadata.Get(delay.DelayedForKey)
+		if ms.refDelay == 0 {
+			if got != "" {
+				r.Fail("C19.R6", "DelayOnError stamped a delay on a message none of whose attempts failed", "%s: %q", ms.uuid, got)
+			}
+		} else if gd, perr := time.ParseDuration(got); perr == nil {
+			want := math.Min(float64(dcfg.initial)*math.Pow(dcfg.mult, float64(ms.refDelay-1)), float64(dcfg.max))
+			if math.Abs(float64(gd)-want) > want*0.001+1000 {
+				r.Fail("C19.R6", "DelayOnError: with several messages in flight a message's delay does not count its own consecutive failures", "%s: k=%d got %q, expected %v", ms.uuid, ms.refDelay, got, time.Duration(want))
+			}
+		} else {
+			r.Fail("C19.R6", "DelayOnError: a failed message carries no delay", "%s: %q", ms.uuid, got)
+		}
+	}
+}
+
 func init() {
 	real := []string{"middleware.Timeout, CorrelationID, Recoverer, IgnoreErrors, InstantAck, Throttle, DelayOnError, CircuitBreaker (sony/gobreaker), Retry (cenkalti/backoff)", "components/delay.Message"}
 	stubs := []string{"scripted bare handler", "reference implementations of the documented effects (the oracle)"}
@@ -535,4 +727,5 @@ func init() {
 	Register(&Scenario{Prop: "C19", Name: "stack-vs-reference", Setup: setup, Body: c19StackBody, Real: real, Stubs: stubs, Weight: 6})
 	Register(&Scenario{Prop: "C19", Name: "delay-on-error-arithmetic", Setup: setup, Body: c19DelayBody, Real: real, Stubs: stubs, Weight: 2})
 	Register(&Scenario{Prop: "C19", Name: "throttle-rate", Setup: setup, Body: c19ThrottleBody, Real: real, Stubs: stubs, Weight: 1})
+	Register(&Scenario{Prop: "C19", Name: "one-stack-concurrent-messages", Setup: setup, Body: c19ConcurrentBody, Real: real, Stubs: stubs, Weight: 2})
 }
